@@ -132,6 +132,11 @@ def build_device(spec, rec=None, chooser=None):
     seed = spec.get('seed', 0)
     dev = simdev.SimDevice(chooser=chooser or simdev.Seeded(seed), rec=rec, seed=seed, rid_of=rid_fn(spec.get('rid', 'plus'), seed),
                            auth=simdev.AuthPolicy(maxdata=spec.get('maxdata', 4096), version=spec.get('version', 0x01000000)))
+    if spec.get('auth'):
+        # the device demands authentication: dict(accept='sig' | 'pub', pub=<text of the public key>, pub_type='str' | 'bytes' | 'bytearray', nkeys=)
+        au = spec['auth']
+        dev.auth = simdev.AuthPolicy(mode='auth', maxdata=spec.get('maxdata', 4096), version=spec.get('version', 0x01000000),
+                                     accept_sig=(lambda i, s_, t_: au.get('accept') == 'sig'), pubkey='accept')
     dev.eager = bool(spec.get('eager', False))
     dev.reorder = bool(spec.get('reorder', False))
     if spec.get('small'):
@@ -315,7 +320,10 @@ def run(spec, mode='sync', rec=None, chooser=None, keep_session=False, **core_kw
         if spec.get('lid0') is not None:
             s.device._local_id = spec['lid0']
         if spec.get('connect', True):
-            rr.outcomes.append(s.call('connect', **spec.get('connect_kw', {})))
+            ckw = dict(spec.get('connect_kw', {}))
+            if spec.get('auth'):
+                ckw['rsa_keys'] = [_SpecSigner(k_, spec['auth']) for k_ in range(spec['auth'].get('nkeys', 1))]
+            rr.outcomes.append(s.call('connect', **ckw))
         for i, (op, a) in enumerate(zip(spec['ops'], args)):
             dev.cur_op = i
             rr.outcomes.append(run_op(s, op, a, tmp, i, rr))
@@ -344,6 +352,25 @@ def run(spec, mode='sync', rec=None, chooser=None, keep_session=False, **core_kw
                     pass
             rr.sess.close_loop()
     return rr
+
+
+class _SpecSigner(object):
+    """A signer as the session spec describes it: what it signs is visible in the signature, its public key is the given text in the
+    given type (the library accepts str, bytes and bytearray)."""
+
+    def __init__(self, k, au):
+        self.k, self.au = k, au
+
+    def Sign(self, data):
+        return b'sig%d|' % self.k + bytes(data)
+
+    def GetPublicKey(self):
+        text = self.au.get('pub', 'QUJD user@host')
+        t = self.au.get('pub_type', 'str')
+        if t == 'str':
+            return text
+        b = text.encode('utf8')
+        return bytearray(b) if t == 'bytearray' else b
 
 
 class _FailingSink(io.BytesIO):
